@@ -48,8 +48,9 @@ impl OutputManager {
             })?;
         }
 
-        // Test write permissions by creating a temporary file
-        let test_file = self.output_dir.join(".write_test");
+        // Test write permissions by creating a temporary file.  Its name lies in the generator's own
+        // namespace (see `is_generated_file`), so that no file of the user is overwritten and removed.
+        let test_file = self.output_dir.join(".write_test_generated");
         fs::write(&test_file, "test").map_err(|e| {
             OutputError::PermissionDenied(format!(
                 "Cannot write to output directory {}: {}",
